@@ -55,7 +55,7 @@ func (h *vmH) doClean(target int, respectBan bool) {
 			if !m.blobs[k].present {
 				continue
 			}
-			_, still := h.s.impl.blobs[vmKeys[k]]
+			still, _ := h.s.Has(vmKeys[k])
 			if m.blobs[k].banned {
 				cand3 = append(cand3, k)
 				if !still {
@@ -89,7 +89,11 @@ func (h *vmH) doClean(target int, respectBan bool) {
 	// newUtil is stated on the store's own size term and the size is compared
 	// with the model in check() (same statement, split so that the solver does
 	// not have to commute subtractions under a division)
-	verif.Assert("clean-util", newUtil == int(h.s.impl.size*100/m.capacity))
+	size := m.reserved
+	if vmStoreSize != nil {
+		size = vmStoreSize(h)
+	}
+	verif.Assert("clean-util", newUtil == int(size*100/m.capacity))
 	h.check()
 }
 
